@@ -132,13 +132,18 @@ pub fn gen_state(r: &mut Rng, o: &GenOpts) -> PushState {
     for _ in 0..depth(r, rich) {
         s.float_vector_stack.push(FloatVector::new(gen_fvec(r, 4)));
     }
-    for _ in 0..r.below(4) {
+    // mostly a few queued messages; now and then the INPUT queue is filled to (and pushed beyond) its capacity of 10
+    let n_in = if r.chance(1, 12) { 9 + r.below(3) } else { r.below(4) };
+    for _ in 0..n_in {
         s.input_stack.push(PushMessage::new(IntVector::new(gen_ivec(r, 3)), BoolVector::new(gen_bvec(r, 4))));
     }
     for _ in 0..r.below(4) {
         s.output_stack.push(PushMessage::new(IntVector::new(gen_ivec(r, 3)), BoolVector::new(gen_bvec(r, 4))));
     }
-    for _ in 0..r.below(4) {
+    // mostly a few snapshots; now and then the GRAPH stack is filled to (and pushed beyond) its capacity of 100, the
+    // only situation in which the ring buffer's write cursor has wrapped
+    let n_graphs = if r.chance(1, 40) { 98 + r.below(4) } else { r.below(4) };
+    for _ in 0..n_graphs {
         // a later snapshot is often derived from the one below it, as GRAPH.DUP followed by edits produces
         // them: same node ids, edges added, removed and put back (so that incoming lists differ in order)
         let derived = if s.graph_stack.size() > 0 && r.chance(1, 2) { s.graph_stack.get(0).cloned() } else { None };
@@ -180,7 +185,9 @@ pub fn gen_state(r: &mut Rng, o: &GenOpts) -> PushState {
     }
     for _ in 0..r.below(4) {
         let k = gen_name(r);
-        let v = gen_item(r, 2, o.instrs);
+        // a name bound to a name (an alias), sometimes to itself or in a ring: evaluating it must still take one
+        // step per alias and stay inside the step budget
+        let v = if r.chance(1, 6) { Item::name(if r.chance(1, 3) { k.clone() } else { gen_name(r) }) } else { gen_item(r, 2, o.instrs) };
         s.name_bindings.insert(k, v);
     }
     // integers last: they are often meant as indices into one of the other containers
